@@ -707,6 +707,25 @@ fn stack_case(rng: &mut Rng, idx: usize, max_layers: usize) -> StackCase {
         depth,
         link: if idx % 3 == 0 && rng.chance(1, 2) { LinkBehavior::ReadTarget } else { LinkBehavior::ReadFile },
     };
+    // Under link following, half of the stacks get a layer that discards one of the links itself
+    // as a tree (an exhaustive negation naming it): a followed link to a directory is a directory
+    // to the walk, and discarding it must keep everything beneath it away from every layer and
+    // from the consumer (rounds 7 and 8: C13-H, C16-I).
+    let mut layers = layers;
+    if behaviour.link == LinkBehavior::ReadTarget && layers.len() < max_layers && rng.chance(1, 2) {
+        let links: Vec<String> = spec
+            .nodes
+            .iter()
+            .filter(|n| matches!(n.kind, Kind::Link(_)))
+            .map(|n| n.rel.rsplit('/').next().unwrap_or("").to_string())
+            .filter(|n| !n.is_empty())
+            .collect();
+        if !links.is_empty() {
+            let name: &String = rng.pick(&links);
+            let at = rng.below(layers.len() + 1);
+            layers.insert(at, LayerSpec::NotText(format!("**/{}/**", wax::escape(name))));
+        }
+    }
     StackCase {
         spec,
         gexpr,
@@ -1343,7 +1362,21 @@ fn c15(idx: usize, ctx: &Ctx, rpt: &mut Report) {
     // where directories that the last component rejects (and that therefore are discarded as
     // trees) are interleaved with matching files. Whatever enforces the maximum and whatever
     // cancels the rejected directories must not trip over each other.
-    let at_last_component = !path_walk && idx % 7 == 3;
+    // Round 8 (C15-I): a glob that is invariant text as a whole (its only possible match is the
+    // path it spells), with minima around and beyond its own depth.
+    let wholly_invariant = !path_walk && idx % 11 == 5 && !spec.nodes.is_empty();
+    let g = if wholly_invariant {
+        let rel = rng.pick(&spec.nodes).rel.clone();
+        match rng.below(3) {
+            0 => wax::escape(&rel).to_string(),
+            1 => format!("{{{0},{0}}}", wax::escape(&rel)),
+            _ => wax::escape(rel.rsplit('/').next().unwrap_or("a")).to_string(),
+        }
+    }
+    else {
+        g
+    };
+    let at_last_component = !path_walk && !wholly_invariant && idx % 7 == 3;
     let g = if at_last_component { (*rng.pick(&["*/*.txt", "*/m*", "?*/*.*", "*.txt", "*/*/*.txt", "{*,*/*}.txt"])).to_string() } else { g };
     let expr = if prefix.is_empty() || g.is_empty() { g.clone() } else { format!("{}/{}", wax::escape(&prefix), g) };
     walkgen::steer(&mut rng, &mut spec, &g, 2);
@@ -1365,7 +1398,19 @@ fn c15(idx: usize, ctx: &Ctx, rpt: &mut Report) {
         spec.plant_path(&format!("{}/zz/zz/zz/leaf", prefix), false);
         spec.plant_path(&format!("{}/zz/side", prefix), false);
     }
-    let (depth, window, ctor) = if at_last_component && rng.chance(3, 4) {
+    let (depth, window, ctor) = if wholly_invariant && rng.chance(3, 4) {
+        let own = prefix_len + g.split('/').count();
+        let lo = rng.range(own.saturating_sub(1), own + 2);
+        match rng.below(3) {
+            0 => (wax::walk::DepthMin::from_min_or_unbounded(lo), (lo, None), "DepthMin::from_min_or_unbounded(around an invariant glob)"),
+            1 => (wax::walk::DepthMinMax::from_depths_or_max(lo, lo + 3), (lo, Some(lo + 3)), "DepthMinMax::from_depths_or_max(around an invariant glob)"),
+            _ => match DepthBehavior::bounded(Some(lo), None) {
+                Some(d) => (d, (lo, None), "DepthBehavior::bounded(min,-)(around an invariant glob)"),
+                None => (DepthBehavior::Unbounded, (0, None), "unbounded"),
+            },
+        }
+    }
+    else if at_last_component && rng.chance(3, 4) {
         let hi = prefix_len + last_level;
         let lo = rng.below(2);
         match rng.below(3) {
@@ -1675,7 +1720,103 @@ fn c20_decode(mut idx: usize, rng: &mut Rng, all_pairs: bool) -> Option<(usize, 
     None
 }
 
+/// Round 8 (C20-I): the fault sits on the path the traversal starts from — the directory given to a
+/// path walk, or the base joined with a glob's invariant prefix, is missing, is a link whose target
+/// is missing, or (unprivileged) lies beneath a directory that cannot be searched. The walk must
+/// produce exactly one error item naming that path, whatever the behaviour and the combinators.
+fn c20_root_fault(idx: usize, ctx: &Ctx, rpt: &mut Report) {
+    let mut rng = Rng::derive(ctx.seed, "C20-root-fault", idx as u64);
+    let is_root = unsafe { libc::geteuid() } == 0;
+    let cont = container(ctx, idx);
+    let base = cont.join("p").join("q").join("root");
+    if std::fs::create_dir_all(base.join("sub").join("inner")).is_err() || std::fs::write(base.join("sub").join("f.txt"), b"x").is_err() {
+        rpt.inconclusive("tree-build-failed", json!({"case": "root fault"}));
+        return;
+    }
+    let kind = rng.below(if is_root { 2 } else { 3 });
+    let (label, name) = match kind {
+        0 => ("missing", "absent"),
+        1 => ("link-to-nothing", "dangling"),
+        _ => ("beneath-an-unsearchable-directory", "locked/inside"),
+    };
+    match kind {
+        1 => {
+            let _ = std::os::unix::fs::symlink("nowhere-at-all", base.join("dangling"));
+        },
+        2 => {
+            use std::os::unix::fs::PermissionsExt;
+            let _ = std::fs::create_dir_all(base.join("locked").join("inside"));
+            let _ = std::fs::set_permissions(base.join("locked"), std::fs::Permissions::from_mode(0o000));
+        },
+        _ => {},
+    }
+    let start = base.join(name);
+    let follow = rng.chance(1, 2);
+    let depth = match rng.below(3) {
+        0 => DepthBehavior::Unbounded,
+        1 => DepthBehavior::Max(wax::walk::DepthMax(3)),
+        _ => wax::walk::DepthMinMax::from_depths_or_max(0, 4),
+    };
+    let behaviour = WalkBehavior {
+        depth,
+        link: if follow { LinkBehavior::ReadTarget } else { LinkBehavior::ReadFile },
+    };
+    // As a path walk of the faulty path, or as a glob whose invariant prefix leads to it.
+    let as_glob = rng.chance(1, 2);
+    let glob: Option<Glob<'static>> = if as_glob {
+        let tail = rng.pick_str(&["**", "*", "**/*.txt", "*/*"]);
+        Glob::new(&format!("{}/{}", name, tail)).ok().map(Glob::into_owned)
+    }
+    else {
+        None
+    };
+    let layers: Vec<LayerSpec> = match rng.below(3) {
+        0 => vec![],
+        1 => vec![LayerSpec::NotText("**/z".to_string())],
+        _ => vec![LayerSpec::Filter { seed: (idx % 11) as u64, mode: 3 }],
+    };
+    let stack = match walksim::realize(&layers, &base) {
+        Some(s) => s,
+        None => return,
+    };
+    ctx.begin(idx, &format!("walk starting at a faulty path ({}) glob={:?}", label, glob.as_ref().map(|g| g.to_string())));
+    let walk_base = if glob.is_some() { base.clone() } else { start.clone() };
+    let obs = guarded(|| walkrun::run(&walk_base, glob.as_ref(), behaviour, &stack.rts));
+    if kind == 2 {
+        use std::os::unix::fs::PermissionsExt;
+        let _ = std::fs::set_permissions(base.join("locked"), std::fs::Permissions::from_mode(0o755));
+    }
+    let obs = match obs {
+        Some(o) => o,
+        None => return,
+    };
+    rpt.evaluations += 1;
+    rpt.bucket("faults:at-the-path-the-traversal-starts-from");
+    rpt.bucket(&format!("root-fault:{}", label));
+    let got: Vec<(bool, Option<PathBuf>, usize)> = obs.items.iter().map(|i| (i.is_err, i.path.clone(), i.depth)).collect();
+    let expected = vec![(true, Some(start.clone()), 0usize)];
+    // (A link to nothing that is read as a file is an ordinary entry, not a fault.)
+    let expected_alt = if kind == 1 && !follow && glob.is_none() { Some(vec![(false, Some(start.clone()), 0usize)]) } else { None };
+    let depth_free = |v: &Vec<(bool, Option<PathBuf>, usize)>| v.iter().map(|x| (x.0, x.1.clone())).collect::<Vec<_>>();
+    let ok = depth_free(&got) == depth_free(&expected) || expected_alt.as_ref().map_or(false, |e| depth_free(&got) == depth_free(e));
+    if !ok {
+        rpt.disagreement(
+            &ctx.known,
+            "faults-not-reported-exactly-once-each-naming-the-offending-path",
+            None,
+            json!({"case": {"start": start.to_string_lossy(), "fault": label, "walk": glob.as_ref().map(|g| g.to_string()), "behaviour": behaviour_json(&behaviour), "layers": layers.iter().map(describe_layer).collect::<Vec<_>>()},
+                   "items": got.iter().map(|g| json!([g.0, g.1.as_ref().map(|p| p.to_string_lossy().to_string()), g.2])).collect::<Vec<_>>()}),
+        );
+        return;
+    }
+    rpt.nontrivial.insert(hash_str(&format!("root-fault|{}|{}|{:?}|{}", label, as_glob, behaviour_json(&behaviour), layers.len())));
+}
+
 fn c20(idx: usize, ctx: &Ctx, rpt: &mut Report, enumerated: usize) {
+    if idx >= enumerated && idx % 6 == 1 {
+        c20_root_fault(idx, ctx, rpt);
+        return;
+    }
     let mut rng = Rng::derive(ctx.seed, "C20", idx as u64);
     let is_root = unsafe { libc::geteuid() } == 0;
     let (spec, faults_desc, follow, stack_kind, depth_kind) = if idx < enumerated {
